@@ -31,14 +31,20 @@ def detorderCase (id : String) (payload : List Sexp) : List String :=
       | .list [.atom a, .atom b] => some (a, b)
       | _ => none)
     let path := atoms (p.field? "path")
-    let results := (perms al).map (fun o => ",".intercalate (realPathParams o path))
-    let inj := (al.map (·.2)).eraseDups.length == al.length
-    both id [("pathparams", "|".intercalate (uniqSorted results))]
-      [("pathparams", ",".intercalate (realPathParams al path))] (if inj then "WF" else "F_aliasDup")
+    -- since 62d8144: a duplicate alias is a Fatal in every iteration order; otherwise the reversed map is order-free
+    let results := (perms al).map (fun o => match realPathParamsChecked o path with
+      | some ps => ",".intercalate ps
+      | none => "fatal")
+    let r := match realPathParamsChecked al path with
+      | some ps => ",".intercalate ps
+      | none => "fatal"
+    both id [("pathparams", "|".intercalate (uniqSorted results)), ("exit", if r == "fatal" then "fail" else "0")]
+      [("pathparams", r), ("exit", if r == "fatal" then "fail" else "0")] "WF"
   | .atom "msg" :: rest =>
     let p := Sexp.list (.atom "p" :: rest)
-    let n := (atoms (p.field? "files")).length
-    both id [("msg-stable", toString (decide (n ≤ 1)))] [("msg-stable", "true")] (if n ≤ 1 then "WF" else "F_msgOrder")
+    let _n := (atoms (p.field? "files")).length
+    -- since 376a366 the message is sorted
+    both id [("msg-stable", "true")] [("msg-stable", "true")] "WF"
   | _ => err id "bad-detorder-case"
 
 /-! ## run histories of `new` (C07): fresh, repeat, edit with stale output in place, separate → all-in-one → back -/
